@@ -5,7 +5,12 @@
 //! against the simulated segment while a script alters working counters on the wire, loses frames
 //! or makes a device drop out mid-sequence. The datagrams as delivered are logged and become the
 //! case line (`c11 <recipe> <path> <args> <trace>`); the Lean model of the same path must predict the
-//! same result from that trace. Independently of the model, a monitor knows which datagrams the
+//! same result from that trace. The EEPROM is exercised at provider level (one read_chunk / write_word /
+//! clear_errors) AND through the multi-datagram paths above it: eeprom_read_raw / one `EepromRange::read`
+//! (`eeraw`), eeprom_read::<T> / read_exact (`eetyped`), SubDeviceEeprom::fmmus (category walk + one
+//! `read`, `eefmmus`), eeprom_write_dangerously / write_all (`eewrite`), set_station_alias (`eealias`),
+//! with lengths 0..40 bytes, odd/even starts, 4- and 8-byte SII reads and a fault at every datagram
+//! position. Independently of the model, a monitor knows which datagrams the
 //! property requires to be checked (by command/register/phase) and reports any `Ok` that rests on a
 //! datagram whose delivered counter differs from the expected one.
 use ecverif::exec::{Net, Stuck, run};
@@ -15,7 +20,7 @@ use ecverif::util::{Report, hex};
 use ecverif::wkcnet::{self, Act, RecDg, RecEv, Recorder};
 use ethercrab::error::Error;
 use ethercrab::subdevice_group::{NoDc, PreOp, SubDeviceGroup};
-use ethercrab::verif::eeprom::{DeviceEeprom, EepromDataProvider};
+use ethercrab::verif::eeprom::{DeviceEeprom, Eeprom, EepromDataProvider, range_read, range_skip, range_write_all};
 use ethercrab::{Command, MainDevice, MainDeviceConfig, SubDeviceState, Timeouts};
 use std::cell::RefCell;
 use std::panic::{AssertUnwindSafe, catch_unwind};
@@ -119,6 +124,17 @@ fn required(path: &str, d: &RecDg, before_mbx_write: bool, num: u16) -> Option<u
     match path {
         "regr" | "regw" | "status" | "eeclr" => Some(1),
         "eerd" | "eewr" => if d.cmd == FPWR { None } else { Some(1) },
+        // the multi-datagram EEPROM paths: every SII status poll (FPRD 0x0502) and data read (FPRD
+        // 0x0508) and the error-reset write-and-read-back of clear_errors (FPWR 0x0502 carrying the
+        // 2-byte SiiControl) must be answered by exactly one device; the 6-byte read/write command and
+        // the data-register write are the documented fire-and-forget writes
+        "eeraw" | "eetyped" | "eefmmus" | "eewrite" | "eealias" => {
+            if d.cmd == FPWR {
+                if d.ado == 0x0502 && d.len == 2 { Some(1) } else { None }
+            } else {
+                Some(1)
+            }
+        }
         "mbx" => {
             if d.cmd == FPWR {
                 None // fire-and-forget mailbox write (documented exempt)
@@ -383,7 +399,7 @@ fn build_world(r: &mut Rng, simple_only: bool) -> Option<World> {
     }
 }
 
-fn finish(path: &str, args: &str, recipe: &str, rec: &Rc<RefCell<Recorder>>, out: Outcome, num: u16, script: &[(usize, Act)], rep: &mut Report) {
+fn finish(path: &str, args: &str, recipe: &str, rec: &Rc<RefCell<Recorder>>, out: Outcome, num: u16, script: &[(usize, Act)], rep: &mut Report) -> String {
     let rec = rec.borrow();
     let tr = wkcnet::trace(&rec, out.deadline);
     let line = if args.is_empty() { format!("c11 {recipe} {path} {tr}") } else { format!("c11 {recipe} {path} {args} {tr}") };
@@ -397,12 +413,17 @@ fn finish(path: &str, args: &str, recipe: &str, rec: &Rc<RefCell<Recorder>>, out
     if faulty {
         rep.nontrivial.insert(line.clone());
     }
-    rep.case(line, out.token);
+    rep.case(line.clone(), out.token);
+    line
 }
 
-fn composite_case(r: &mut Rng, recipe: &str, rep: &mut Report, force: Option<(&str, Vec<(usize, Act)>)>) {
-    let drawn = *r.pick(&["regr", "regw", "status", "eerd", "eerd", "eewr", "eeclr", "mbx", "mbx", "grp", "grp", "reqop", "mdw"]);
+fn composite_case(r: &mut Rng, recipe: &str, rep: &mut Report, force: Option<(&str, Vec<(usize, Act)>, Params)>) {
+    let drawn = *r.pick(&[
+        "regr", "regw", "status", "eerd", "eerd", "eewr", "eeclr", "mbx", "mbx", "grp", "grp", "reqop", "mdw", "eeraw", "eeraw", "eeraw", "eetyped", "eetyped", "eefmmus", "eefmmus", "eewrite",
+        "eealias",
+    ]);
     let path = force.as_ref().map(|f| f.0).unwrap_or(drawn);
+    let params = force.as_ref().map(|f| f.2.clone()).unwrap_or_default();
     let forced = force.map(|f| f.1);
     let faults = |r: &mut Rng, span: usize, ndev: usize| -> Vec<(usize, Act)> {
         let drawn = faults(r, span, ndev);
@@ -536,6 +557,9 @@ fn composite_case(r: &mut Rng, recipe: &str, rep: &mut Report, force: Option<(&s
             }
             finish(path, "", recipe, &rec, out, 0, &script, rep);
         }
+        "eeraw" | "eetyped" | "eefmmus" | "eewrite" | "eealias" => {
+            eeprom_case(r, recipe, rep, path, &mut w, &group, forced.clone(), &params);
+        }
         "mbx" => {
             let dev = 1usize;
             w.net.seg.devices[dev].mbx_response_delay = r.below(4) as u32;
@@ -641,19 +665,368 @@ fn composite_case(r: &mut Rng, recipe: &str, rep: &mut Report, force: Option<(&s
     unsafe { w.net.recycle() };
 }
 
+// ------------------------------------------------------------------------------------------------
+// family 3: multi-datagram EEPROM paths (above the provider)
+
+/// Overrides of the random parameters of an EEPROM case (corpus recipes): `n` bytes requested /
+/// written, `w` start word, `c` SII chunk (4|8), `b` busy polls after each command, `s` bytes skipped
+/// before the read, `v` bytes covered by the range, `f` words of the FMMU category, `p` categories
+/// in front of it. E.g. `n12w5c4b0`.
+#[derive(Clone, Default)]
+struct Params {
+    n: Option<usize>,
+    word: Option<u16>,
+    chunk: Option<usize>,
+    busy: Option<u32>,
+    skip: Option<usize>,
+    cover: Option<usize>,
+    fmmu_words: Option<usize>,
+    pre: Option<usize>,
+}
+
+impl Params {
+    fn parse(s: &str) -> Params {
+        let mut p = Params::default();
+        let b = s.as_bytes();
+        let mut i = 0;
+        while i < b.len() {
+            let key = b[i] as char;
+            i += 1;
+            let st = i;
+            while i < b.len() && b[i].is_ascii_digit() {
+                i += 1;
+            }
+            let Ok(v) = s[st..i].parse::<usize>() else { continue };
+            match key {
+                'n' => p.n = Some(v),
+                'w' => p.word = Some(v as u16),
+                'c' => p.chunk = Some(if v == 8 { 8 } else { 4 }),
+                'b' => p.busy = Some(v as u32),
+                's' => p.skip = Some(v),
+                'v' => p.cover = Some(v),
+                'f' => p.fmmu_words = Some(v),
+                'p' => p.pre = Some(v),
+                _ => {}
+            }
+        }
+        p
+    }
+}
+
+/// Wire faults for a call expected to send about `span` datagrams to device `dev`: mostly ONE fault at
+/// a uniformly drawn datagram position (so every position of a multi-chunk sequence is hit).
+fn ee_faults(r: &mut Rng, span: usize, dev: usize) -> Vec<(usize, Act)> {
+    let mut s = Vec::new();
+    let k = match r.below(10) {
+        0 | 1 => 0,
+        2..=8 => 1,
+        _ => 2,
+    };
+    for _ in 0..k {
+        let at = r.below(span.max(1) as u64 + 1) as usize;
+        let act = match r.below(9) {
+            0 | 1 => Act::SetWkc(0),
+            2 => Act::SetWkc(2),
+            3 => Act::SetWkc(r.below(4) as u16),
+            4 => Act::AddWkc(1),
+            5 => Act::Lose(r.chance(1, 2)),
+            _ => Act::DropAfter(dev),
+        };
+        s.push((at, act));
+    }
+    s
+}
+
+macro_rules! typed_read {
+    ($sd:expr, $md:expr, $word:expr, $n:expr, [$($k:literal)*]) => {
+        match $n {
+            $($k => $sd.eeprom_read::<[u8; $k]>($md, $word).await.map(|v| v.to_vec()),)*
+            _ => unreachable!(),
+        }
+    };
+}
+
+/// The bytes a chunked read starting at byte `pos` for `n` bytes takes from the SII data reads
+/// (FPRD 0x0508) that were delivered, in order: an odd position drops the first byte of a chunk.
+fn delivered_bytes(rec: &Recorder, mut pos: usize, n: usize) -> Vec<u8> {
+    let mut out = Vec::new();
+    for e in &rec.evs {
+        if let RecEv::Dg(d) = e {
+            if d.cmd == FPRD && d.ado == 0x0508 && out.len() < n {
+                let c = &d.data[(pos % 2).min(d.data.len())..];
+                let k = c.len().min(n - out.len());
+                out.extend_from_slice(&c[..k]);
+                pos += k;
+            }
+        }
+    }
+    out
+}
+
+fn all_required_serviced(path: &str, rec: &Recorder) -> bool {
+    rec.evs.iter().all(|e| match e {
+        RecEv::Dg(d) => required(path, d, false, 0).map(|x| x == d.wkc).unwrap_or(true),
+        RecEv::Lost(_) => false,
+    })
+}
+
+fn eeprom_case(r: &mut Rng, recipe: &str, rep: &mut Report, path: &str, w: &mut World, group: &Group, forced: Option<Vec<(usize, Act)>>, p: &Params) {
+    let md = w.md;
+    let ndev = w.ndev;
+    let dev = r.below(ndev as u64) as usize;
+    let addr = 0x1000 + dev as u16;
+    let chunk = p.chunk.unwrap_or(*r.pick(&[4usize, 8]));
+    let busy = p.busy.unwrap_or(*r.pick(&[0u32, 0, 0, 1, 2]));
+    let mut nak = false;
+    let quirk = r.below(16);
+    {
+        let d = &mut w.net.seg.devices[dev];
+        d.sii.chunk = chunk;
+        d.sii.busy_polls = busy;
+        if forced.is_none() {
+            match quirk {
+                0 => d.sii.faults.push_back(SiiFault::BusyForever),
+                1 => d.sii.faults.push_back(SiiFault::Busy(1 + quirk as u32 + busy)),
+                2 => {
+                    nak = true;
+                    d.sii.faults.push_back(SiiFault::CommandError)
+                }
+                3 => d.sii.write_error = true,
+                4 => d.sii.checksum_error = true,
+                _ => {}
+            }
+        }
+    }
+    let image_len = w.net.seg.devices[dev].eeprom.len();
+    let fix = |s: Vec<(usize, Act)>| -> Vec<(usize, Act)> {
+        // a drop-out of a device index that does not exist means "the addressed device"
+        s.into_iter().map(|(k, a)| (k, match a { Act::DropAfter(x) if x >= ndev => Act::DropAfter(dev), a => a })).collect()
+    };
+    let polls = 1 + busy as usize;
+    match path {
+        "eeraw" | "eetyped" => {
+            let n_raw = match r.below(12) {
+                0 => 0usize,
+                1 => 1,
+                _ => r.range(1, 40) as usize,
+            };
+            let n = p.n.unwrap_or(if path == "eetyped" { n_raw.max(1) } else { n_raw }).min(40);
+            let n = if path == "eetyped" { n.max(1) } else { n };
+            let word_raw = match r.below(10) {
+                0 => 0xffff - r.below(4) as u16,
+                1 => (image_len / 2).saturating_sub(r.below(6) as usize) as u16,
+                _ => r.below(0x60) as u16,
+            };
+            let word = p.word.unwrap_or(word_raw);
+            let public_draw = r.chance(2, 3);
+            let public = path == "eetyped" || (p.skip.is_none() && p.cover.is_none() && public_draw);
+            let cover_raw = match r.below(4) {
+                0 => n.saturating_sub(r.below(5) as usize),
+                1 => n + r.below(6) as usize,
+                _ => n,
+            };
+            let skip_raw = r.below(4) as usize;
+            let cover = if public { n } else { p.cover.unwrap_or(cover_raw) };
+            let skip = if public { 0 } else { p.skip.unwrap_or(skip_raw) };
+            // independent arithmetic of the window
+            let start = 2 * word as usize;
+            let end = (start + 2 * cover.div_ceil(2)).min(0x20000);
+            let pos = start + skip;
+            let skip_fails = skip > 0 && pos >= end;
+            let expect_len = if skip_fails { 0 } else { n.min(end.saturating_sub(pos)) };
+            let chunks = if expect_len == 0 { 0 } else { (expect_len + pos % 2).div_ceil(chunk) };
+            let span = if chunks == 0 { 0 } else { 1 + chunks * (1 + polls + 1) };
+            let drawn = ee_faults(r, span, dev);
+            let script = fix(forced.unwrap_or(drawn));
+            let rec = wkcnet::install(&mut w.net, script.clone());
+            let res = catch_unwind(AssertUnwindSafe(|| {
+                run(&mut w.net, async {
+                    let sd = group.subdevice(md, dev)?;
+                    if path == "eetyped" {
+                        let v: Result<Vec<u8>, Error> = typed_read!(sd, md, word, n, [1 2 3 4 5 6 7 8 9 10 11 12 13 14 15 16 17 18 19 20 21 22 23 24 25 26 27 28 29 30 31 32 33 34 35 36 37 38 39 40]);
+                        v.map(|b| (b.len(), b))
+                    } else if public {
+                        let mut buf = vec![0u8; n];
+                        let k = sd.eeprom_read_raw(md, word, &mut buf).await?;
+                        Ok((k, buf))
+                    } else {
+                        let ee = Eeprom::new(DeviceEeprom::new(md, addr));
+                        let mut range = ee.start_at(word, cover as u16);
+                        if skip > 0 {
+                            range_skip(&mut range, skip as u16).map_err(Error::Eeprom)?;
+                        }
+                        let mut buf = vec![0u8; n];
+                        let k = range_read(&mut range, &mut buf).await?;
+                        Ok((k, buf))
+                    }
+                })
+            }))
+            .map_err(|_| ());
+            let returned: Option<(usize, Vec<u8>)> = match &res {
+                Ok(Ok(Ok((k, b)))) => Some((*k, b.clone())),
+                _ => None,
+            };
+            let typed = path == "eetyped";
+            let out = outcome(res, |(k, b)| if typed { hex_ok(&b) } else { format!("ok:{}:{}", k, hex(&b[..k.min(b.len())])) });
+            let args = if typed { format!("{word} {n}") } else { format!("{word} {cover} {skip} {n}") };
+            rep.hit(&format!("{path}:chunk:{chunk}"));
+            rep.hit(&format!("{path}:chunks:{}", chunks.min(6)));
+            rep.hit(&format!("{path}:start:{}", if pos % 2 == 1 { "odd-byte" } else if word % 2 == 1 { "odd-word" } else { "even-word" }));
+            let line = finish(path, &args, recipe, &rec, out, 0, &script, rep);
+            if let Some((k, b)) = returned {
+                let rec = rec.borrow();
+                let got = &b[..k.min(b.len())];
+                // (1) a completed read is a FULL read: everything that was asked for and lies inside the window
+                let full = if typed { n } else { expect_len };
+                if k < full {
+                    rep.fail("c11/short-read-reported-complete", &format!("{path}: Ok with {k} byte(s) although {full} were requested and lie inside the window (word {word}, {chunk}-byte SII reads)"), &line);
+                } else if k > full {
+                    rep.fail("c11/read-longer-than-window", &format!("{path}: Ok with {k} bytes, window holds {full}"), &line);
+                }
+                // (2) the bytes are the concatenation of what the serviced data reads delivered
+                if all_required_serviced(path, &rec) {
+                    let want = delivered_bytes(&rec, pos, k);
+                    if got != &want[..] {
+                        rep.fail("c11/eeprom-bytes-not-delivered", &format!("{path} returned {} but the data reads delivered {}", hex(got), hex(&want)), &line);
+                    }
+                }
+                // (3) and, on an unaltered wire, the device's image
+                let untouched = rec.evs.iter().all(|e| matches!(e, RecEv::Dg(d) if d.wkc == d.wkc_sim));
+                if untouched && !nak {
+                    let d = &w.net.seg.devices[dev];
+                    let want: Vec<u8> = (0..k).map(|i| d.eeprom.get(pos + i).copied().unwrap_or(d.sii.oob_fill)).collect();
+                    if got != &want[..] {
+                        rep.fail("c11/eeprom-data-not-from-device", &format!("{path}({word}) returned {} but the image holds {}", hex(got), hex(&want)), &line);
+                    }
+                }
+            }
+        }
+        "eefmmus" => {
+            // the category area is rewritten: `pre` foreign categories, then (usually) an FMMU
+            // category of `fw` words, then the end marker
+            let pre = p.pre.unwrap_or(r.below(3) as usize);
+            let fw_raw = match r.below(8) {
+                0 => 0usize,
+                1 => 1,
+                2 => 9 + r.below(3) as usize,
+                _ => 2 + r.below(7) as usize,
+            };
+            let fw = p.fmmu_words.unwrap_or(fw_raw);
+            let present = p.fmmu_words.is_some() || !r.chance(1, 10);
+            let bad_entry = p.fmmu_words.is_none() && r.chance(1, 12);
+            let mut area: Vec<u8> = Vec::new();
+            for _ in 0..pre {
+                let ty = *r.pick(&[10u16, 30, 41, 42, 50, 51, 60, 3, 0x0800]);
+                let lw = r.below(5) as usize;
+                area.extend_from_slice(&ty.to_le_bytes());
+                area.extend_from_slice(&(lw as u16).to_le_bytes());
+                area.extend(r.bytes(2 * lw));
+            }
+            let mut entries: Vec<u8> = Vec::new();
+            if present {
+                area.extend_from_slice(&40u16.to_le_bytes());
+                area.extend_from_slice(&(fw as u16).to_le_bytes());
+                entries = (0..2 * fw).map(|_| *r.pick(&[0u8, 1, 2, 3, 0xff, 1, 2])).collect();
+                if bad_entry && !entries.is_empty() {
+                    let k = r.below(entries.len() as u64) as usize;
+                    entries[k] = 7;
+                }
+                area.extend_from_slice(&entries);
+            }
+            area.extend_from_slice(&[0xff, 0xff, 0, 0, 0xff, 0xff, 0, 0]);
+            {
+                let d = &mut w.net.seg.devices[dev];
+                if d.eeprom.len() < 0x80 + area.len() + 16 {
+                    d.eeprom.resize(0x80 + area.len() + 16, 0xff);
+                }
+                d.eeprom[0x80..0x80 + area.len()].copy_from_slice(&area);
+            }
+            let held = entries.len().min(16);
+            let span = (pre + 1) * (1 + polls + 1) + if held > 0 { 1 + held.div_ceil(chunk) * (1 + polls + 1) } else { 0 };
+            let drawn = ee_faults(r, span, dev);
+            let script = fix(forced.unwrap_or(drawn));
+            let rec = wkcnet::install(&mut w.net, script.clone());
+            let res = catch_unwind(AssertUnwindSafe(|| run(&mut w.net, async { Eeprom::new(DeviceEeprom::new(md, addr)).fmmus().await.map(|v| v.to_vec()) }))).map_err(|_| ());
+            let returned: Option<Vec<u8>> = match &res {
+                Ok(Ok(Ok(v))) => Some(v.clone()),
+                _ => None,
+            };
+            let out = outcome(res, |v| hex_ok(&v));
+            rep.hit(&format!("eefmmus:chunk:{chunk}"));
+            rep.hit(&format!("eefmmus:entries:{}", if !present { "none".to_string() } else { format!("{}", (held + 3) / 4 * 4) }));
+            let line = finish(path, "", recipe, &rec, out, 0, &script, rep);
+            if let Some(v) = returned {
+                let rec = rec.borrow();
+                let untouched = rec.evs.iter().all(|e| matches!(e, RecEv::Dg(d) if d.wkc == d.wkc_sim));
+                // a completed FMMU query lists the whole category (up to the 16 entries of the buffer)
+                if v.len() < held && !nak {
+                    rep.fail("c11/short-read-reported-complete", &format!("fmmus(): Ok with {} entries although the category holds {held}", v.len()), &line);
+                }
+                if untouched && !nak {
+                    let want: Vec<u8> = entries[..held].iter().map(|&b| if b == 0xff { 0 } else { b }).collect();
+                    if v != want {
+                        rep.fail("c11/eeprom-data-not-from-device", &format!("fmmus() returned {} but the category holds {}", hex(&v), hex(&want)), &line);
+                    }
+                }
+            }
+        }
+        "eewrite" | "eealias" => {
+            let n_raw = *r.pick(&[1usize, 2, 4, 8, 2, 4, 8, 3, 5, 6, 7, 10, 12]);
+            let n = p.n.unwrap_or(n_raw).clamp(1, 16);
+            let word = p.word.unwrap_or(r.below(0x38) as u16);
+            let public = matches!(n, 1 | 2 | 4 | 8) && r.chance(2, 3);
+            let value = r.bytes(n);
+            let alias = r.next() as u16;
+            let words = n.div_ceil(2);
+            let span = if path == "eewrite" { words * (polls + 2 + polls) } else { 1 + 14usize.div_ceil(chunk) * (2 + polls) + 2 * (2 * polls + 2) };
+            let drawn = ee_faults(r, span, dev);
+            let script = fix(forced.unwrap_or(drawn));
+            let rec = wkcnet::install(&mut w.net, script.clone());
+            let res = catch_unwind(AssertUnwindSafe(|| {
+                run(&mut w.net, async {
+                    if path == "eealias" {
+                        Eeprom::new(DeviceEeprom::new(md, addr)).set_station_alias(alias).await
+                    } else if public {
+                        let sd = group.subdevice(md, dev)?;
+                        match n {
+                            1 => sd.eeprom_write_dangerously::<u8>(md, word, value[0]).await,
+                            2 => sd.eeprom_write_dangerously::<u16>(md, word, u16::from_le_bytes([value[0], value[1]])).await,
+                            4 => sd.eeprom_write_dangerously::<u32>(md, word, u32::from_le_bytes([value[0], value[1], value[2], value[3]])).await,
+                            _ => sd.eeprom_write_dangerously::<u64>(md, word, u64::from_le_bytes([value[0], value[1], value[2], value[3], value[4], value[5], value[6], value[7]])).await,
+                        }
+                    } else {
+                        let mut range = Eeprom::new(DeviceEeprom::new(md, addr)).start_at(word, n as u16);
+                        range_write_all(&mut range, &value).await
+                    }
+                })
+            }))
+            .map_err(|_| ());
+            let out = outcome(res, |_| "ok".to_string());
+            rep.hit(&format!("{path}:words:{}", if path == "eewrite" { words } else { 2 }));
+            let args = if path == "eewrite" { format!("{word} {n}") } else { String::new() };
+            let _ = finish(path, &args, recipe, &rec, out, 0, &script, rep);
+        }
+        _ => unreachable!(),
+    }
+}
+
 fn one(case_seed: u64, rep: &mut Report) {
     let mut r = Rng::new(case_seed);
     let recipe = format!("s{case_seed}");
     if r.chance(1, 2) { prim_case(&mut r, &recipe, rep) } else { composite_case(&mut r, &recipe, rep, None) }
 }
 
-/// Corpus recipe `k<path>.<seed>.<script>`; script = `n` or `_`-joined `<ordinal><s|a|l|d><value>`.
+/// Corpus recipe `k<path>.<seed>.<script>[.<params>]`; script = `n` or `_`-joined `<ordinal><s|a|l|d><value>`;
+/// params (EEPROM paths only) = letters followed by numbers, see `Params`.
 fn corpus_case(recipe: &str, rep: &mut Report) {
     let parts: Vec<&str> = recipe[1..].split('.').collect();
-    if parts.len() != 3 {
+    if parts.len() != 3 && parts.len() != 4 {
         return;
     }
-    let Some(path) = ["regr", "regw", "status", "eerd", "eewr", "eeclr", "mbx", "grp", "reqop", "mdw"].into_iter().find(|p| *p == parts[0]) else { return };
+    let Some(path) = ["regr", "regw", "status", "eerd", "eewr", "eeclr", "mbx", "grp", "reqop", "mdw", "eeraw", "eetyped", "eefmmus", "eewrite", "eealias"].into_iter().find(|p| *p == parts[0]) else {
+        return;
+    };
+    let params = if parts.len() == 4 { Params::parse(parts[3]) } else { Params::default() };
     let seed: u64 = parts[1].parse().unwrap_or(0);
     let mut script = Vec::new();
     if parts[2] != "n" {
@@ -673,7 +1046,7 @@ fn corpus_case(recipe: &str, rep: &mut Report) {
         }
     }
     let mut r = Rng::new(seed);
-    composite_case(&mut r, recipe, rep, Some((path, script)));
+    composite_case(&mut r, recipe, rep, Some((path, script, params)));
 }
 
 fn run_recipe(recipe: &str, rep: &mut Report) {
@@ -689,8 +1062,32 @@ fn run_recipe(recipe: &str, rep: &mut Report) {
 /// transition coming back with a foreign working counter).
 fn corpus() -> Vec<String> {
     let mut v = Vec::new();
+    // the witnesses the multi-chunk EEPROM paths exist for: the device drops out right after the
+    // first chunk of a 12-byte raw read / of the FMMU category read (must be a working-counter error)
+    v.push("keeraw.1.3d9.n12w5c4b0".to_string());
+    v.push("keefmmus.1.6d9.f3p0c4b0".to_string());
+    // a fault at EVERY datagram position of multi-chunk sequences
+    for (p, params, span) in [
+        ("eeraw", "n12w5c4b0", 10usize),
+        ("eeraw", "n13w6c4b1s1v16", 17),
+        ("eeraw", "n40w0c8b0", 16),
+        ("eeraw", "n9w7c8b0", 7),
+        ("eetyped", "n12w8c4b0", 10),
+        ("eetyped", "n16w8c8b0", 7),
+        ("eefmmus", "f3p0c4b0", 10),
+        ("eefmmus", "f8p1c8b1", 17),
+        ("eewrite", "n6w16c4b0", 10),
+        ("eealias", "c4b0", 21),
+    ] {
+        v.push(format!("k{p}.1.n.{params}"));
+        for ord in 0..span {
+            for act in ["s0", "s2", "d9", "l1", "l0"] {
+                v.push(format!("k{p}.1.{ord}{act}.{params}"));
+            }
+        }
+    }
     for seed in 1..=3u64 {
-        for p in ["regr", "regw", "status", "eerd", "eewr", "eeclr", "mbx", "grp", "reqop", "mdw"] {
+        for p in ["regr", "regw", "status", "eerd", "eewr", "eeclr", "mbx", "grp", "reqop", "mdw", "eeraw", "eetyped", "eefmmus", "eewrite", "eealias"] {
             v.push(format!("k{p}.{seed}.n"));
             v.push(format!("k{p}.{seed}.0s0"));
             v.push(format!("k{p}.{seed}.1s0"));
